@@ -76,6 +76,9 @@ def run(ctx, rep):
     rep.guarded("R15-TAGSITE", lambda: c04.r_tagsites(sh, rep, "R15-TAGSITE"))
     rep.rule("R15-BIGINTSITE", "printer and parser convert Data big integers only through from/to_pallas_bigint (shared with C04)", floor=2)
     rep.guarded("R15-BIGINTSITE", lambda: c04.r_bigintsites(sh, rep, "R15-BIGINTSITE"))
+    if gram:
+        rep.rule("R15-READERS", "the grammar reads a Data constructor index with a rule wide enough for what the printer writes (u64), and a name's unique always comes from the interner", floor=2)
+        rep.guarded("R15-READERS", lambda: r_readers(sh, rep, gram))
     rep.rule("R15-BIGREPR", "the parser's `I <n>` and the printer convert Data big integers with mutually inverse big-integer arithmetic (shared with C04)", floor=5)
     rep.guarded("R15-BIGREPR", lambda: c04.r_bigrepr(ctx.flow, rep, "R15-BIGREPR"))
     rep.guarded("R15-TOTAL", lambda: r_total(sh, rep, gram))
@@ -658,3 +661,41 @@ def r_action_arith(sh, rep, gram):
 
                 scan(act["c"])
     rep.ok("R15-TOTAL", "actions#shift-additive-precedence", G, why="no grammar action mixes shift and additive operators at one level", nontrivial=False) if n == 0 else None
+
+
+# ---------------------------------------------------------------------------------------------------------
+# R15-READERS: two reader clauses of the grammar
+# ---------------------------------------------------------------------------------------------------------
+WIDE_UNSIGNED = ("usize", "u64", "u128", "BigInt", "num_bigint::BigInt")
+
+
+def r_readers(sh, rep, gram):
+    """(a) The printer writes a constructor index as the u64 it is; the `data` production must read it with a rule whose
+    result type holds every u64 (this crate is 64-bit only: usize) — a signed machine integer rejects 2^63..2^64-1.
+    (b) Names are identified by text: the printer writes the text only, so the unique a parsed name gets must be the
+    interner's (same text -> same unique, different text -> different unique); any other source of uniques shares the
+    number space with the interner and makes two binders collide."""
+    d = gram.get("data")
+    if d is None:
+        raise AnchorMissing("grammar rule data")
+    alts = [a for a in d.alts if any(t["t"] == "l" and t.get("v") == '"Constr"' for t in a.toks)]
+    if not alts:
+        raise AnchorMissing("the Constr alternative of grammar rule data")
+    flat = alts[0].action_flat() if alts[0].actions else []
+    src = None
+    for i, t in enumerate(flat):
+        if t == "try_from" and i + 2 < len(flat):
+            src = flat[i + 2]
+    reader = None
+    toks = alts[0].toks
+    for i, t in enumerate(toks):
+        if t["t"] == "i" and t.get("v") == src and i + 2 < len(toks) and toks[i + 1].get("v") == ":":
+            reader = toks[i + 2].get("v")
+    ret = (gram[reader].header.split("->")[-1] if reader in gram else "?")
+    rep.check(ret in WIDE_UNSIGNED, "R15-READERS", "data#Constr#index-rule-holds-u64", "%s:%s" % (G, d.line), "the Constr index is read by rule `%s` returning `%s`: the printer writes the index as a u64, so indices from 2^63 on are printed and then rejected" % (reader, ret), sample={"rule": reader, "type": ret})
+    n = gram.get("name")
+    if n is None:
+        raise AnchorMissing("grammar rule name")
+    fl = n.alts[0].action_flat() if n.alts and n.alts[0].actions else []
+    other = [t for t in fl if t in ("match", "if", "Unique", "parse", "rsplit_once", "split", "strip_suffix", "rsplit")]
+    rep.check("intern" in fl and not other, "R15-READERS", "name#unique-from-interner-only", "%s:%s" % (G, n.line), "rule `name` derives a name's unique from something else than interner.intern(text) (%s): uniques taken from the text share the number space with interned ones, two different binders can end up with the same unique and a variable resolves to the wrong lambda after print -> parse" % other, sample={"action": fl[:20]})
